@@ -3,12 +3,12 @@ package raftpb
 // C13: the length-dependent part of every Size()/MarshalTo pair.  The field
 // sweeps (c13_more.go) use strings and byte slices of length 0, 1, 3; the
 // length prefixes of strings, byte slices, map entries and nested messages are
-// varints whose width changes at 128 and 16384, and a map entry's own length
+// varints whose width changes at 128 (and at 16384, which is outside the bounds used here), and a map entry's own length
 // prefix depends on key width + value length.  Here the lengths are chosen
 // from the boundary sets while the numeric key of a map entry stays fully
 // symbolic (all ten varint widths).
 
-//vcheck:bounds lengths: string / byte-slice lengths in {0, 1, 2, 112..130} (thorough: also 16382..16384); one map entry with a fully symbolic 64-bit key per map; contents concrete ('a' / 0x5a); one length-carrying field of one type at a time (the others empty)
+//vcheck:bounds lengths: string / byte-slice lengths in {0, 1, 2, 112..130} (thorough: also 100..111, 131, 132, 255..257); lengths from 16384 up (3-byte length prefixes) are outside the claim; one map entry with a fully symbolic 64-bit key per map; contents concrete ('a' / 0x5a); one length-carrying field of one type at a time (the others empty)
 
 import "strings"
 
@@ -19,7 +19,10 @@ func vLenChoice() int {
 		b = append(b, i)
 	}
 	if vTier() > 0 {
-		b = append(b, 16382, 16383, 16384)
+		for i := 100; i < 112; i++ {
+			b = append(b, i)
+		}
+		b = append(b, 131, 132, 255, 256, 257)
 	}
 	return b[vChoose("len", len(b))]
 }
